@@ -138,8 +138,11 @@ def sweep(ctx, n):
                 if c["cls"] == "Dipole":
                     bad = [j for j in bad if any(abs(x) > 0 for x in c["obs"][j])]  # the dipole position itself is the documented singular point
                 if c["vertex_singular"]:
+                    # vertices are the documented singular points; an observer within rounding distance (1e-12 sizes) of a
+                    # vertex (e.g. v_i + 1.0*(v_j - v_i)) is that vertex
                     v = np.asarray(c["kw"]["vertices"], float)
-                    bad = [j for j in bad if np.min(np.linalg.norm(v - np.asarray(c["obs"][j]), axis=1)) > 0]
+                    size = float(np.max(np.abs(v))) + 1e-300
+                    bad = [j for j in bad if np.min(np.linalg.norm(v - np.asarray(c["obs"][j]), axis=1)) > 1e-12 * size]
                 if bad:
                     j = bad[0]
                     fails.append({"key": f"non-finite:{c['cls']}:{c['variant']}:{f}", "desc": f"get{f} is not finite at a finite observer",
